@@ -421,6 +421,21 @@ func init() {
 				AnnChance: 2, ExcludeIngressKeys: []string{"waf", "cert-signer"}, NoForeignClass: r.IntN(2) == 0, IgnoreAvoid: lift})
 			return rc
 		}})
+	// static worlds where several hosts of a namespace declare the oauth2 proxy path: the proxy backend is
+	// looked up by ranging over the hosts
+	register(&Profile{Name: "order-oauth", Prop: "C06", Weight: 1,
+		Oracles: OracleSet{Property: "C06", OrderIndep: true, FreshAtSync: true},
+		Build: func(seed uint64, tier string) *RunConfig {
+			r := cfgRng(seed)
+			ctl := sampleCtl(r)
+			lift := []string{"no_dup_paths", "no_new_default_backend", "ingress_hosts_fixed", "no_external_auth"}
+			rc := &RunConfig{Property: "C06", Profile: "order-oauth", Seed: seed, Ctl: ctl, MapOrder: true, Lagfree: true, IgnoreAvoid: lift}
+			rc.World, rc.Ops = GenerateRun(seed, GenOptions{Sparse: r.IntN(4) == 0, NoOps: true, MaxIngresses: pickInt(r, 4, 6, 8), KeysPerRun: pickInt(r, 2, 4),
+				AnnChance: 2, ExcludeIngressKeys: []string{"waf", "cert-signer"}, ForceIngressKeys: []string{"oauth"}, NoForeignClass: true, IgnoreAvoid: lift,
+				InitialGlobal: map[string]string{"external-has-lua": "true"},
+				Paths:         []string{"/", "/app", "/oauth2", "/oauth2", "/api"}})
+			return rc
+		}})
 	// the same after a short lag-free history: objects that were updated, deleted and re-created
 	register(&Profile{Name: "order-history", Prop: "C06", Weight: 1,
 		Oracles: OracleSet{Property: "C06", OrderIndep: true},
@@ -494,6 +509,24 @@ func init() {
 			rc.World, rc.Ops = GenerateRun(seed, GenOptions{IngressKeys: []string{"auth-url", "auth-external-placement", "balance-algorithm"},
 				ValueOverrides: map[string][]string{"auth-url": {"svc://s1:8080", "svc://s1:8080/check", "svc://a/s2:8080", "svc://s2:8080", "svc://b/s3:8081", "svc://s1:80", "http://10.9.9.9:8000/auth"}, "auth-external-placement": {"backend", "backend", "frontend"}},
 				GlobalKeys:     []string{"auth-proxy", "timeout-client"}, InitialGlobal: initial, AnnChance: 1, OwnHostAlways: true, Sparse: true,
+				MinOps: mn, MaxOps: mx, QuiesceEvery: pickInt(r, 2, 4), KeysPerRun: 3, W: w, NoForeignClass: true})
+			return rc
+		}})
+
+	// the declaration sits on the Service: every path that routes to it is protected
+	register(&Profile{Name: "auth-svcann", Prop: "C18", Weight: 1,
+		Oracles: OracleSet{Property: "C18", ExtAuth: true},
+		Build: func(seed uint64, tier string) *RunConfig {
+			r := cfgRng(seed)
+			mn, mx := tierOps(tier, 4, 14)
+			ctl := sampleCtl(r)
+			rc := &RunConfig{Property: "C18", Profile: "auth-svcann", Seed: seed, Ctl: ctl, MapOrder: r.IntN(2) == 0, Lagfree: r.IntN(3) == 0, MidSched: r.IntN(2) == 0}
+			w := map[string]int{"ing_create": 8, "ing_delete": 4, "ing_update": 8, "ing_ann": 8, "svc_update": 10, "global_change": 2, "ep_scale": 4, "renotify": 2, "advance": 3}
+			initial := map[string]string{"external-has-lua": "true", "auth-proxy": []string{"_front__auth:14415-14419", "_front__auth:14415-14416"}[r.IntN(2)]}
+			rc.World, rc.Ops = GenerateRun(seed, GenOptions{IngressKeys: []string{"auth-external-placement", "balance-algorithm", "auth-url"},
+				ValueOverrides: map[string][]string{"auth-external-placement": {"backend", "frontend"}, "auth-url": {"svc://s2:8080"}},
+				ServiceKeys:    []string{"auth-url", "auth-external-placement"}, SvcAnnChance: 2,
+				GlobalKeys:     []string{"auth-proxy", "timeout-client"}, InitialGlobal: initial, AnnChance: 2, OwnHostAlways: true, Sparse: true,
 				MinOps: mn, MaxOps: mx, QuiesceEvery: pickInt(r, 2, 4), KeysPerRun: 3, W: w, NoForeignClass: true})
 			return rc
 		}})
